@@ -188,6 +188,21 @@ func init() {
 			e.st.thread = e.strArg(args[0], "vpThread")
 			return nil, true
 		},
+		"vpAnd": func(e *Engine, fr *Frame, args []Value) (Value, bool) {
+			return smt.BAnd(args[0].(*smt.Term), args[1].(*smt.Term)), true
+		},
+		"vpOr": func(e *Engine, fr *Frame, args []Value) (Value, bool) {
+			return smt.BOr(args[0].(*smt.Term), args[1].(*smt.Term)), true
+		},
+		"vpImplies": func(e *Engine, fr *Frame, args []Value) (Value, bool) {
+			return smt.BOr(smt.Not(args[0].(*smt.Term)), args[1].(*smt.Term)), true
+		},
+		"vpIte": func(e *Engine, fr *Frame, args []Value) (Value, bool) {
+			return smt.Ite(args[0].(*smt.Term), args[1].(*smt.Term), args[2].(*smt.Term)), true
+		},
+		"vpEqBytes": func(e *Engine, fr *Frame, args []Value) (Value, bool) {
+			return strEq(Str{e.sliceTerms(args[0].(Slice))}, Str{e.sliceTerms(args[1].(Slice))}), true
+		},
 		"vpParam": func(e *Engine, fr *Frame, args []Value) (Value, bool) {
 			name := e.strArg(args[0], "vpParam")
 			v, ok := e.Cfg.Params[name]
